@@ -446,7 +446,7 @@ func runDirect(rules []corsRule, q c34Req, withMiddleware bool) c34Obs {
 	next := http.HandlerFunc(func(w http.ResponseWriter, r *http.Request) {
 		o.Invoked++
 		w.Header().Set("X-Next", "reached")
-		w.Header().Set("Vary", "Accept-Encoding")
+		w.Header().Add("Vary", "Accept-Encoding")
 		w.WriteHeader(http.StatusAccepted)
 		w.Write([]byte("next-body:" + r.Method))
 	})
